@@ -209,7 +209,7 @@ class Extractor {
   }
 
   json::Value refDecl(const ValueDecl *VD, json::Object &o) {
-    o["name"] = VD->getNameAsString();
+    o["name"] = isa<DecompositionDecl>(VD) ? std::string("<decomp>") : VD->getNameAsString();
     if (auto *V = dyn_cast<VarDecl>(VD)) {
       if (isa<ParmVarDecl>(V)) {
         o["dk"] = "param";
@@ -262,7 +262,12 @@ class Extractor {
       o["method_static"] = MD->isStatic();
       if (const CXXRecordDecl *P = MD->getParent()) {
         o["callee_rec"] = recordName(P);
-        if (P->isLambda()) o["callee_lambda"] = true;
+        if (P->isLambda()) {
+          o["callee_lambda"] = true;
+          PresumedLoc PL = SM.getPresumedLoc(SM.getExpansionLoc(P->getLocation()));
+          if (PL.isValid())
+            o["callee_lambda_id"] = std::string("lambda@") + PL.getFilename() + ":" + std::to_string(PL.getLine()) + ":" + std::to_string(PL.getColumn());
+        }
       }
     }
     o["callee_file"] = fileOf(FD->getLocation());
@@ -281,6 +286,53 @@ class Extractor {
     o["ty"] = ty(E->getType());
     o["cty"] = cty(E->getType());
 
+    if (auto *DR0 = dyn_cast<DeclRefExpr>(E)) {
+      if (auto *BD = dyn_cast<BindingDecl>(DR0->getDecl())) {
+        // structured binding: `auto &[a, b] = x;` - a use of `a` is a use of <x>.first
+        if (const VarDecl *HV = BD->getHoldingVar()) {
+          // tuple-like protocol: the binding is a hidden reference initialised with get<I>(<decomp>)
+          const Expr *I0 = HV->getInit() ? strip(HV->getInit()) : nullptr;
+          if (auto *CE = dyn_cast_or_null<CallExpr>(I0)) {
+            const FunctionDecl *FD = CE->getDirectCallee();
+            const ValueDecl *Dec = BD->getDecomposedDecl();
+            if (FD && FD->getNameAsString() == "get" && FD->getTemplateSpecializationArgs() &&
+                FD->getTemplateSpecializationArgs()->size() >= 1 &&
+                FD->getTemplateSpecializationArgs()->get(0).getKind() == TemplateArgument::Integral && Dec) {
+              int64_t idx = FD->getTemplateSpecializationArgs()->get(0).getAsIntegral().getExtValue();
+              std::string dty = cty(Dec->getType().getNonReferenceType());
+              if (dty.find("std::pair<") != std::string::npos && (idx == 0 || idx == 1)) {
+                json::Object m;
+                int id2 = nextStmt++;
+                m["sid"] = id2;
+                m["loc"] = loc(E->getExprLoc());
+                m["ty"] = ty(E->getType());
+                m["cty"] = cty(E->getType());
+                m["k"] = "member";
+                m["arrow"] = false;
+                m["name"] = idx == 0 ? "first" : "second";
+                m["q"] = std::string("std::pair::") + (idx == 0 ? "first" : "second");
+                m["mk"] = "field";
+                m["rec"] = "std::pair";
+                json::Object b;
+                b["sid"] = nextStmt++;
+                b["loc"] = loc(E->getExprLoc());
+                b["ty"] = ty(Dec->getType());
+                b["cty"] = cty(Dec->getType());
+                b["k"] = "ref";
+                b["name"] = "<decomp>";
+                b["dk"] = "var";
+                b["d"] = did(Dec);
+                m["base"] = std::move(b);
+                stmtIds[E] = id2;
+                return std::move(m);
+              }
+            }
+          }
+        } else if (const Expr *BE = BD->getBinding()) {
+          return expr(BE);
+        }
+      }
+    }
     if (auto *DR = dyn_cast<DeclRefExpr>(E)) {
       o["k"] = "ref";
       refDecl(DR->getDecl(), o);
@@ -542,7 +594,7 @@ class Extractor {
   json::Value varDecl(const VarDecl *V) {
     json::Object o;
     o["d"] = did(V);
-    o["name"] = V->getNameAsString();
+    o["name"] = isa<DecompositionDecl>(V) ? std::string("<decomp>") : V->getNameAsString();
     o["ty"] = ty(V->getType());
     o["cty"] = cty(V->getType());
     o["loc"] = loc(V->getLocation());
@@ -765,6 +817,11 @@ class Extractor {
     g["has_init"] = V->hasInit();
     g["pointer_like"] = V->getType()->isPointerType() ||
                         V->getType()->isReferenceType();
+    if (V->hasInit() && (V->getType().isConstQualified() || V->isConstexpr()) && V->getType()->isIntegralOrEnumerationType()) {
+      Expr::EvalResult R;
+      if (!V->getInit()->isValueDependent() && V->getInit()->EvaluateAsInt(R, Ctx))
+        g["const_value"] = (int64_t)R.Val.getInt().getExtValue();
+    }
     globals.push_back(std::move(g));
   }
 
